@@ -299,6 +299,7 @@ func Run(c *core.Ctx) {
 	c.Note("rule", "enum: every sequence of <=N pieces (N=5 quick, 6 thorough) over {'{{','}}','{','}','a','x','tick()','1+1',' ','\\\"','\\n'} as quoted and as raw literal x 8 configurations of the preset variables a,x (plain; holding {{tick()}} / {{1+1}}; self-reproducing {{a}}; '}}' / '{{' alone in both orders; mutually reproducing; half markers; tick() returning marker text) - configurations beyond the first only where the reference evaluates an expression that mentions a, x or tick; "+
 		"rand: 5..16 pieces from a pool extended by whole spans ({{a}}, {{x}}, {{tick()}}, {{vh.tick()}}, {{1+1}}, failing spans) with random marker-laden values, as plain statement / assigned / returned from a function; except: literals inside an except clause echoing e.detail/e.error/e.type of an error raised with marker-laden detail; sink: literals inside a sink echoing event state. "+
 		"Oracles: result string == one-pass reference (shape prefix+'#...'+suffix for failing, prefix+anything+suffix for expressions the reference does not know), tick() call count, list of evaluated expression texts (seen by a counting util.ECALDebugger) is the literal's own spans in order, node-visit budget 8*len(literal)+2*len(values)+128, no panic. "+
+		"escape: literals assembled from pieces with known source form and value (\\\\, \\\", \\n, \\t, \\r, \\x41, \\u00e9, \\101, runs of 2 and 3 backslashes before a quote, plain quotes of the other kind, non-ASCII, {{1+1}}) in both quote kinds, all sequences of <=3 (thorough 4) pieces and random longer ones, followed by a second statement; the value must be the pieces' values and the second statement must be what was written. "+
 		"reentrant: one literal node evaluated again before its first evaluation finished - by recursion through its own interpolated expression (depth <= 6, expected string computed directly) and by 2..8 threads evaluating the same parsed function at once with thread-specific values. "+
 		"non-trivial = distinct (literal, form, value configuration) with a '{{' and a '}}' in the literal")
 	c.Note("exhaustive", "true")
@@ -306,6 +307,7 @@ func Run(c *core.Ctx) {
 	k.sl = newSlots(c, workers())
 	k.enum()
 	k.random()
+	k.escapes()
 	k.except()
 	k.sl.close()
 	k.sink()
